@@ -5,6 +5,8 @@
 package backtest
 
 import (
+	"sync"
+
 	"github.com/cinar/indicator/v2/asset"
 	"github.com/cinar/indicator/v2/helper"
 	"github.com/cinar/indicator/v2/strategy"
@@ -32,6 +34,9 @@ type DataStrategyResult struct {
 type DataReport struct {
 	// Results are the backtest results for the assets.
 	Results map[string][]*DataStrategyResult
+
+	// mutex guards the results, as the backtest workers report concurrently.
+	mutex sync.Mutex
 }
 
 // NewDataReport initializes a new data report instance.
@@ -48,6 +53,9 @@ func (*DataReport) Begin(_ []string, _ []strategy.Strategy) error {
 
 // AssetBegin is called when backtesting for the given asset begins.
 func (d *DataReport) AssetBegin(name string, strategies []strategy.Strategy) error {
+	d.mutex.Lock()
+	defer d.mutex.Unlock()
+
 	d.Results[name] = make([]*DataStrategyResult, 0, len(strategies))
 	return nil
 }
@@ -69,6 +77,9 @@ func (d *DataReport) Write(assetName string, currentStrategy strategy.Strategy, 
 		Action:       <-lastAction,
 		Transactions: transactions,
 	}
+
+	d.mutex.Lock()
+	defer d.mutex.Unlock()
 
 	d.Results[assetName] = append(d.Results[assetName], result)
 
